@@ -527,91 +527,99 @@ def _history(vd, rnd, tier):
     with warnings.catch_warnings():
         warnings.simplefilter("ignore")
         for name, (mk, vector) in ests.items():
-            # predict before fit must raise, for every predicting method
-            for meth in ("predict", "grid", "profile", "score", "filter-free-predict"):
-                est = mk()
-                try:
-                    if meth == "predict":
-                        est.predict(probe)
-                    elif meth == "grid":
-                        est.grid(region=(0, 10, -5, 5), shape=(4, 4))
-                    elif meth == "profile":
-                        est.profile((0, 0), (5, 5), size=5)
-                    elif meth == "score":
-                        ds = _dataset(rnd, 12)
-                        c, d, w = _fitargs(ds, vector, False)
-                        est.score(c, d)
+            try:
+                # predict before fit must raise, for every predicting method
+                for meth in ("predict", "grid", "profile", "score", "filter-free-predict"):
+                    est = mk()
+                    try:
+                        if meth == "predict":
+                            est.predict(probe)
+                        elif meth == "grid":
+                            est.grid(region=(0, 10, -5, 5), shape=(4, 4))
+                        elif meth == "profile":
+                            est.profile((0, 0), (5, 5), size=5)
+                        elif meth == "score":
+                            ds = _dataset(rnd, 12)
+                            c, d, w = _fitargs(ds, vector, False)
+                            est.score(c, d)
+                        else:
+                            clone(est).predict(probe)
+                        raised, exn = False, None
+                    except Exception as exc:      # noqa
+                        raised, exn = True, type(exc).__name__
+                    boolcase({"estimator": name, "call_before_fit": meth}, {"raised": raised, "exception": exn}, raised,
+                             "import verde as vd, numpy as np  # %s().%s before fit must raise" % (name, meth), "unfitted")
+                for rep in range(reps):
+                    k = 1 + (rep % 4)
+                    weighted = name in ("Trend", "Spline", "VectorSpline2D", "Vector", "SplineCV", "Chain") and rep % 2 == 1
+                    sizes = [rnd.choice([14, 18, 24, 30]) for _ in range(k)]
+                    if k > 1 and rep % 3 == 0:
+                        sizes[-1] = min(sizes) - 2          # last data set smaller than an earlier one
+                    dss = [_dataset(rnd, n, twod=(rep % 5 == 4), offset=rnd.choice([0.0, 1.5])) for n in sizes]
+                    est = mk()
+                    for ds in dss:
+                        est.fit(*_fitargs(ds, vector, weighted))
+                    if name == "VectorSpline2D":
+                        fc = tuple(np.ravel(x).copy() for x in dss[0][:2])
+                        fresh = vd.VectorSpline2D(poisson=0.4, mindist=2.0, damping=1e-3, force_coords=fc)
                     else:
-                        clone(est).predict(probe)
-                    raised, exn = False, None
-                except Exception as exc:      # noqa
-                    raised, exn = True, type(exc).__name__
-                boolcase({"estimator": name, "call_before_fit": meth}, {"raised": raised, "exception": exn}, raised,
-                         "import verde as vd, numpy as np  # %s().%s before fit must raise" % (name, meth), "unfitted")
-            for rep in range(reps):
-                k = 1 + (rep % 4)
-                weighted = name in ("Trend", "Spline", "VectorSpline2D", "Vector", "SplineCV", "Chain") and rep % 2 == 1
-                sizes = [rnd.choice([14, 18, 24, 30]) for _ in range(k)]
-                if k > 1 and rep % 3 == 0:
-                    sizes[-1] = min(sizes) - 2          # last data set smaller than an earlier one
-                dss = [_dataset(rnd, n, twod=(rep % 5 == 4), offset=rnd.choice([0.0, 1.5])) for n in sizes]
-                est = mk()
-                for ds in dss:
-                    est.fit(*_fitargs(ds, vector, weighted))
-                if name == "VectorSpline2D":
-                    fc = tuple(np.ravel(x).copy() for x in dss[0][:2])
-                    fresh = vd.VectorSpline2D(poisson=0.4, mindist=2.0, damping=1e-3, force_coords=fc)
-                else:
-                    fresh = mk()
-                fresh.fit(*_fitargs(dss[-1], vector, weighted))
-                same = _pred_equal(est.predict(probe), fresh.predict(probe)) and _close(est.region_, fresh.region_)
-                boolcase({"estimator": name, "fit_sizes": sizes, "weighted": weighted, "seed_rep": rep},
-                         {"same_as_fresh": same}, same,
-                         "import verde as vd  # %s fitted to %d data sets (sizes %r) vs fresh fitted to the last" % (name, k, sizes), "refit")
-                # filter == fit + residual, and does not depend on history either
-                if name not in ("Vector", "VectorSpline2D") or True:
-                    c, d, w = _fitargs(dss[-1], vector, weighted)
-                    r1 = est.filter(c, d, w)[1]
-                    r2 = mk().filter(c, d, w)[1] if name != "VectorSpline2D" else fresh.filter(c, d, w)[1]
-                    boolcase({"estimator": name, "filter_after_history": sizes, "weighted": weighted}, {}, _pred_equal(r1, r2),
-                             "import verde as vd  # %s.filter after a history vs fresh" % name, "refit")
-                # clone / get_params / set_params
-                base = mk()
-                cl = clone(base)
-                p1, p2 = base.get_params(deep=False), cl.get_params(deep=False)
-                same_params = set(p1) == set(p2) and all(
-                    (p1[k_] is p2[k_]) or repr(p1[k_]) == repr(p2[k_]) for k_ in p1)
-                rt = type(base)(**p1)
-                rt2 = mk().set_params(**mk().get_params(deep=False))
-                args = _fitargs(dss[-1], vector, weighted)
-                preds = [o.fit(*args).predict(probe) for o in (base, cl, rt, rt2)]
-                same_beh = all(_pred_equal(preds[0], q) for q in preds[1:])
-                cl2 = clone(base)                 # clone of a fitted estimator is unfitted
-                try:
-                    cl2.predict(probe)
-                    unf = False
-                except Exception:      # noqa
-                    unf = True
-                boolcase({"estimator": name, "clone_roundtrip": rep}, {"same_params": same_params, "same_behaviour": same_beh,
-                                                                        "clone_of_fitted_is_unfitted": unf},
-                         same_params and same_beh and unf, "from sklearn.base import clone; import verde as vd  # clone(%s)" % name, "clone")
+                        fresh = mk()
+                    fresh.fit(*_fitargs(dss[-1], vector, weighted))
+                    same = _pred_equal(est.predict(probe), fresh.predict(probe)) and _close(est.region_, fresh.region_)
+                    boolcase({"estimator": name, "fit_sizes": sizes, "weighted": weighted, "seed_rep": rep},
+                             {"same_as_fresh": same}, same,
+                             "import verde as vd  # %s fitted to %d data sets (sizes %r) vs fresh fitted to the last" % (name, k, sizes), "refit")
+                    # filter == fit + residual, and does not depend on history either
+                    if name not in ("Vector", "VectorSpline2D") or True:
+                        c, d, w = _fitargs(dss[-1], vector, weighted)
+                        r1 = est.filter(c, d, w)[1]
+                        r2 = mk().filter(c, d, w)[1] if name != "VectorSpline2D" else fresh.filter(c, d, w)[1]
+                        boolcase({"estimator": name, "filter_after_history": sizes, "weighted": weighted}, {}, _pred_equal(r1, r2),
+                                 "import verde as vd  # %s.filter after a history vs fresh" % name, "refit")
+                    # clone / get_params / set_params
+                    base = mk()
+                    cl = clone(base)
+                    p1, p2 = base.get_params(deep=False), cl.get_params(deep=False)
+                    same_params = set(p1) == set(p2) and all(
+                        (p1[k_] is p2[k_]) or repr(p1[k_]) == repr(p2[k_]) for k_ in p1)
+                    rt = type(base)(**p1)
+                    rt2 = mk().set_params(**mk().get_params(deep=False))
+                    args = _fitargs(dss[-1], vector, weighted)
+                    preds = [o.fit(*args).predict(probe) for o in (base, cl, rt, rt2)]
+                    same_beh = all(_pred_equal(preds[0], q) for q in preds[1:])
+                    cl2 = clone(base)                 # clone of a fitted estimator is unfitted
+                    try:
+                        cl2.predict(probe)
+                        unf = False
+                    except Exception:      # noqa
+                        unf = True
+                    boolcase({"estimator": name, "clone_roundtrip": rep}, {"same_params": same_params, "same_behaviour": same_beh,
+                                                                            "clone_of_fitted_is_unfitted": unf},
+                             same_params and same_beh and unf, "from sklearn.base import clone; import verde as vd  # clone(%s)" % name, "clone")
+            except Exception as exc:      # noqa: an exception inside a valid history is itself a failure
+                boolcase({"estimator": name, "history_stream_error": "%s: %s" % (type(exc).__name__, str(exc)[:160])}, {}, False,
+                         "# see harness/c20.py _history for estimator %s" % name, "refit")
         # estimators without fit: clone round trip
         for name, mk in {"BlockReduce": lambda: vd.BlockReduce(np.median, spacing=2.0), "BlockMean": lambda: vd.BlockMean(spacing=2.0),
                          "CheckerBoard": lambda: vd.synthetic.CheckerBoard(region=(0, 10, -5, 5))}.items():
-            base = mk()
-            cl = clone(base)
-            rt = type(base)(**base.get_params(deep=False))
-            ds = _dataset(rnd, 40)
-            if name.startswith("Block") and "filter" in dir(base):
-                outs = [_snap(o.filter((ds[0], ds[1]), ds[2])) for o in (base, cl, rt)]
-            elif name == "CheckerBoard":
-                outs = [_snap(o.predict(probe)) for o in (base, cl, rt)]
-            else:
-                X = np.c_[ds[0], ds[1]]
-                outs = [_snap([list(map(np.asarray, s)) for s in o.split(X)]) for o in (base, cl, rt)]
-            ok = outs[0] == outs[1] == outs[2]
-            boolcase({"estimator": name, "clone_roundtrip": "params"}, {"same_behaviour": ok}, ok,
-                     "from sklearn.base import clone; import verde as vd  # clone(%s)" % name, "clone")
+            try:
+                base = mk()
+                cl = clone(base)
+                rt = type(base)(**base.get_params(deep=False))
+                ds = _dataset(rnd, 40)
+                if name.startswith("Block") and "filter" in dir(base):
+                    outs = [_snap(o.filter((ds[0], ds[1]), ds[2])) for o in (base, cl, rt)]
+                elif name == "CheckerBoard":
+                    outs = [_snap(o.predict(probe)) for o in (base, cl, rt)]
+                else:
+                    X = np.c_[ds[0], ds[1]]
+                    outs = [_snap([list(map(np.asarray, s)) for s in o.split(X)]) for o in (base, cl, rt)]
+                ok = outs[0] == outs[1] == outs[2]
+                boolcase({"estimator": name, "clone_roundtrip": "params"}, {"same_behaviour": ok}, ok,
+                         "from sklearn.base import clone; import verde as vd  # clone(%s)" % name, "clone")
+            except Exception as exc:      # noqa
+                boolcase({"estimator": name, "clone_stream_error": "%s: %s" % (type(exc).__name__, str(exc)[:160])}, {}, False,
+                         "# see harness/c20.py _history", "clone")
     return cases
 
 
